@@ -152,5 +152,9 @@ func (Pegnet) SelectSnapshotBalances(tx QueryAble) ([]BalancesPair, error) {
 
 		res = append(res, bp)
 	}
+	// a failure while the rows are read must not shorten the list of holders
+	if err := rows.Err(); err != nil {
+		return nil, err
+	}
 	return res, nil
 }
